@@ -857,6 +857,7 @@ def make_task_func(world: World, tspec: dict) -> Any:
 
     body.__signature__ = inspect.Signature(params)  # type: ignore[attr-defined]
     body.__annotations__ = annotations
+    body._dep_funcs = funcs  # type: ignore[attr-defined]
     body.__name__ = body.__qualname__ = "task_" + tspec["name"]
     body.__module__ = TASKS_MODULE
     return body
@@ -901,7 +902,12 @@ def make_endpoint(world: World, node: str, worker: Optional[int] = None, gen: in
         if ts.get("client_only") and worker is not None:
             continue
         labels = {k: dec_label(v) for k, v in ts.get("labels", {}).items()}
-        br.register_task(make_task_func(world, ts), task_name=ts["name"], **labels)
+        fn = make_task_func(world, ts)
+        br.register_task(fn, task_name=ts["name"], **labels)
+        if worker is not None:
+            funcs = getattr(fn, "_dep_funcs", {})
+            for orig, repl in ts.get("overrides", []):
+                br.dependency_overrides[funcs[orig]] = funcs[repl]
     return br
 
 
@@ -1000,6 +1006,11 @@ def simulate(script: dict, client_fn: Any = None) -> Run:
             run.end = "stepcap"
         except TimeCap:
             run.end = "timecap"
+        except BaseException as exc:  # noqa: BLE001
+            # KeyboardInterrupt / SystemExit (or anything else) escaped a task and tore down the event
+            # loop: in a real worker this kills the process. Reported by the runner as a violation.
+            run.end = "escaped:" + type(exc).__name__
+            world.rec("escaped", None, exc=type(exc).__name__)
     finally:
         world.recorder.closed = True
         run.events = world.recorder.events
